@@ -3,6 +3,7 @@ package bitcoin_reader
 import (
 	"context"
 	"sort"
+	"sync"
 
 	"github.com/tokenized/pkg/storage"
 )
@@ -26,12 +27,17 @@ func ctxbg() context.Context { return context.Background() }
 
 // verifStore: in-memory storage with copy-on-read/write semantics.
 type verifStore struct {
+	// like the real storage back ends the store synchronises its own accesses, which also makes
+	// every storage call a scheduling point for concurrent callers
+	lock sync.Mutex
 	data map[string][]byte
 }
 
 func newVerifStore() *verifStore { return &verifStore{data: map[string][]byte{}} }
 
 func (s *verifStore) Read(ctx context.Context, key string) ([]byte, error) {
+	s.lock.Lock()
+	defer s.lock.Unlock()
 	b, ok := s.data[key]
 	if !ok {
 		return nil, storage.ErrNotFound
@@ -44,11 +50,15 @@ func (s *verifStore) Read(ctx context.Context, key string) ([]byte, error) {
 func (s *verifStore) Write(ctx context.Context, key string, body []byte, o *storage.Options) error {
 	c := make([]byte, len(body))
 	copy(c, body)
+	s.lock.Lock()
+	defer s.lock.Unlock()
 	s.data[key] = c
 	return nil
 }
 
 func (s *verifStore) Remove(ctx context.Context, key string) error {
+	s.lock.Lock()
+	defer s.lock.Unlock()
 	if _, ok := s.data[key]; !ok {
 		return storage.ErrNotFound
 	}
